@@ -60,6 +60,30 @@ BUILT = {
   note="Trusted: TLC. Fault enumeration is complete for streams up to 200 bytes (quick) / 4 KiB (thorough).",
   technique="TLA+ reader model with EOF/fault at every Read (TLC exhaustive) + fault enumeration on the real code with TLC trace validation",
   design="DESIGN.md section 5, C11"),
+ "C15": dict(
+  level="model_checking",
+  text="Trace_Tables.tla states ProfileWellFormed; TLC evaluates it over constants exported from the compiled program at every run (verif hook + reflection): every known message has a constructor and a type; field numbers map to distinct struct indices, dense in 0..NumField-1; the Go type of each struct field matches the entry's base type, array flag and time/coordinate kind; the all-invalid constructor leaves every field at its type's invalid value; encoded sizes fit one byte; every file-container member is a known message; no table row for an unknown message; and (message, field number) -> (struct field name, base type, array) agrees with the rows of the newest bundled SDK workbook (21.40), read by the harness itself with the xlsx library. Every hosted (message, field) additionally goes through the real decoder and the real encoder once under recover.",
+  note="Static evaluation by TLC over all 779 entries (exhaustive). SDK agreement only where the 21.40 workbook has the field (756 of 779); the workbook of the declared version 21.115 is not available offline.",
+  technique="TLA+ well-formedness predicate evaluated by TLC over tables exported from the compiled program + SDK workbook cross-check",
+  design="DESIGN.md section 5, C15"),
+ "C17": dict(
+  level="model_checking",
+  text="Coord.tla states the clauses over integers: validity classes of semicircle values with their breakpoints (exactly +-2^30 left open), Semicircles, Degrees as the exact rational s*45/2^29 checked against the float64 bit pattern (mantissa/exponent arithmetic on 16-bit limbs), NaN iff invalid, round trip through degrees within one semicircle strictly inside the range, printed form as |P*2^29 - s*45*10^5| <= 2*2^29, time as epoch + u with the absolute Unix second, inverse and base-time clauses. The real types are swept natively (quick: stride 2^12 / 2^10 plus all class boundaries +-1000; thorough: all 2^32 values of both coordinate types and all 2^32 second counts) with the same integer clauses; TLC validates the run-length encoding of Invalid() over the swept points against the class tables and a stratified sample of full observations (thousands of values incl. every boundary +-3) event by event.",
+  note="Trusted: TLC for the sample and the interval tables; the full-domain sweep uses native integer arithmetic (big.Int for the printed form). Go's float formatting is not modelled; the printed string is parsed back.",
+  technique="TLA+ integer contract (Coord) + TLC validation of interval tables and sampled observations + native sweep of the 32-bit domains",
+  design="DESIGN.md section 5, C17"),
+ "C19": dict(
+  level="translation_validation",
+  text="FitGen.tla states the relation between the enabled rows of a workbook and the generated struct fields / lookup entries (one each per enabled row, in row order, struct index = rank among the enabled rows, nothing for disabled rows) and the generator as a row-by-row state machine; TLC checks the relation for all 64 selections of a toy message (and that a row-index variant breaks it). The real fitgen command, built from /repo, is run on the 5 bundled workbooks under seeded dependency-closed selections (main-field and sub-field rows blanked with the xlsx library), as a bare workbook with -sdk and inside a FitSDKRelease_<v>.zip, twice per selection (into an empty directory and over an existing stock output); exit status, byte-identity of the four files, the declared SDK version, the parsed struct fields and _fields entries (go/parser) and go build together with the hand-written files the generated code needs are recorded and validated by TLC against FitGen.",
+  note="Compilation and byte-identity are decided by go build and byte comparison (facts in the trace). 'Support code' = pfield.go, accumu.go, time.go, latlng.go, types_man.go, internal/types: file_types.go does not build against any bundled workbook, stock selections included (DESIGN.md C19). Selections are sampled.",
+  technique="TLA+ row/entry relation (FitGen) checked by TLC on a toy workbook + translation validation of real fitgen runs on rewritten workbooks",
+  design="DESIGN.md section 5, C19"),
+ "C20": dict(
+  level="model_checking",
+  text="Trace_Stringer.tla states the lookup rule (name of a constant with that value without the type prefix, else Type(n)); the constant table is extracted from the checked-in types.go with go/types (not from types_string.go). A generated probe program calls String() on every constant of all 176 generated types, their neighbours, all 256 values of 8-bit types, small values and seeded samples of wider types (35 000+ calls); TLC validates every observation. The repository's forked stringer (copied into a scratch module) is run on the checked-in types.go with the type list from the header of types_string.go; byte equality with the checked-in file is a fact validated in the same trace.",
+  note="A table-lookup property: TLA+ adds an independent statement of the rule. Exhaustive over constants and 8-bit types; wider types sampled.",
+  technique="TLA+ lookup rule + TLC validation of every observed String() call + regeneration with the repository's stringer",
+  design="DESIGN.md section 5, C20"),
  "C02": dict(
   level="model_checking",
   text="The TLA+ reference decoder FitRef (value semantics FitValues: byte order, sign/zero extension, strings, arrays, times, coordinates, invalid values; three-valued verdicts) is run by TLC over the input of every recorded Decode call (trace validation, one state per protocol unit) and every produced message is compared field by field with what the real decoder returned. Drivers: all device files under testdata, a systematic stream per hosted message covering every field x every compatible definition type (narrower types too) x both byte orders x boundary values with unknown/developer neighbours, large definitions (up to 255 fields / 255 developer fields), and seeded profile-driven random streams.",
